@@ -72,6 +72,12 @@ Qed.
 Lemma const_not_attribute n k : const_of n = Some k -> is_cls "Attribute" n = false.
 Proof. intro H. destruct (const_of_inv _ _ H) as [p [fs [-> _]]]. reflexivity. Qed.
 
+Lemma is_cls_inj a b n : is_cls a n = true -> is_cls b n = true -> a = b.
+Proof.
+  destruct n; try discriminate. unfold is_cls. intros H1 H2.
+  apply String.eqb_eq in H1. apply String.eqb_eq in H2. congruence.
+Qed.
+
 Lemma is_Str_str_of n : is_Str n = false -> str_of n = None.
 Proof. unfold is_Str, str_of. destruct (const_of n) as [[]|]; congruence. Qed.
 
@@ -216,6 +222,9 @@ End Chmod.
 (* ------------------------------------------------------------------------------------------ *)
 (* B105 / B106 / B107: the positions                                                           *)
 
+Ltac unf := unfold mk_str, mk_int, mk_const, mk_name, mk_attr, mk_assign, mk_subscript, mk_compare,
+                    mk_keyword, mk_call, mk_arg, mk_arguments, mk_funcdef, mk_expr in *.
+
 (* the Assign branch in general: every target is looked at, the visited literal is what is quoted *)
 Lemma password_assign_any_target : forall cfg c p1 lit p2 targets v sib rest,
   c_node c = mk_str p1 lit -> c_parents c = (mk_assign p2 targets v, sib) :: rest ->
@@ -223,8 +232,8 @@ Lemma password_assign_any_target : forall cfg c p1 lit p2 targets v sib rest,
     if existsb targ_matches targets then Ok (Some (pw_report lit)) else Ok None.
 Proof.
   intros cfg c p1 lit p2 targets v sib rest Hn Hp.
-  unfold hardcoded_password_string, ancestor. rewrite Hp, Hn. simpl.
-  unfold pw_assign_branch. simpl. destruct (existsb targ_matches targets); reflexivity.
+  unfold hardcoded_password_string, ancestor. rewrite Hp, Hn. unf. cbn.
+  unfold pw_assign_branch. cbn. destruct (existsb targ_matches targets); reflexivity.
 Qed.
 
 Lemma funcarg_scan_skip pre kws :
@@ -295,37 +304,37 @@ Proof.
   change re_search with (fun r s => re_search r s).
   repeat match goal with |- _ /\ _ => split end.
   - intros cfg c p1 p2 p3 name lit sib rest Hn Hp.
-    rewrite (password_assign_any_target _ _ _ _ _ _ _ _ _ Hn Hp). simpl. unfold targ_matches. simpl.
+    rewrite (password_assign_any_target _ _ _ _ _ _ _ _ _ Hn Hp). unf. cbn. unfold targ_matches. cbn.
     change (re_search re_candidates name) with (is_candidate name).
     destruct (is_candidate name); reflexivity.
   - intros cfg c p1 p2 p3 obj name lit sib rest Hn Hp.
-    rewrite (password_assign_any_target _ _ _ _ _ _ _ _ _ Hn Hp). simpl. unfold targ_matches. simpl.
+    rewrite (password_assign_any_target _ _ _ _ _ _ _ _ _ Hn Hp). unf. cbn. unfold targ_matches. cbn.
     change (re_search re_candidates name) with (is_candidate name).
     destruct (is_candidate name); reflexivity.
   - intros cfg c p1 p2 p3 p4 d name lit others s1 s2 rest Hn Hp.
-    unfold hardcoded_password_string, ancestor. rewrite Hp, Hn. simpl.
+    unfold hardcoded_password_string, ancestor. rewrite Hp, Hn. unf. cbn.
     change (re_search re_candidates name) with (is_candidate name).
     destruct (is_candidate name); [|reflexivity].
-    unfold pw_subscript_branch, ancestor. rewrite Hp. reflexivity.
+    unfold pw_subscript_branch, ancestor. rewrite Hp. unf. reflexivity.
   - intros cfg c p2 p3 p4 name lit ops more sib rest Hp.
-    unfold hardcoded_password_string, ancestor. rewrite Hp. simpl.
-    unfold pw_compare_branch. simpl.
+    unfold hardcoded_password_string, ancestor. rewrite Hp. unf. cbn.
+    unfold pw_compare_branch. cbn.
     change (re_search re_candidates name) with (is_candidate name).
     destruct (is_candidate name); reflexivity.
   - intros cfg c p2 p3 p4 obj name lit ops more sib rest Hp.
-    unfold hardcoded_password_string, ancestor. rewrite Hp. simpl.
-    unfold pw_compare_branch. simpl.
+    unfold hardcoded_password_string, ancestor. rewrite Hp. unf. cbn.
+    unfold pw_compare_branch. cbn.
     change (re_search re_candidates name) with (is_candidate name).
     destruct (is_candidate name); reflexivity.
   - intros cfg c p p2 p3 func args pre name lit post Hn Hpre.
-    unfold hardcoded_password_funcarg. rewrite Hn. simpl.
-    rewrite (funcarg_scan_skip _ _ Hpre). simpl.
+    unfold hardcoded_password_funcarg. rewrite Hn. unf. cbn.
+    rewrite (funcarg_scan_skip _ _ Hpre). cbn.
     change (re_search re_candidates name) with (is_candidate name).
     destruct (is_candidate name); reflexivity.
   - intros cfg c p fname posonly pre p2 name ann p3 lit vararg kwonly kwdefs kwarg body decos Hn.
-    unfold hardcoded_password_default. rewrite Hn. simpl. unfold pad_defaults.
-    rewrite app_length. simpl. rewrite Nat.add_sub.
-    rewrite default_scan_skip_none. simpl.
+    unfold hardcoded_password_default. rewrite Hn. unf. cbn. unfold pad_defaults.
+    rewrite app_length. cbn. rewrite Nat.add_sub.
+    rewrite default_scan_skip_none. cbn.
     change (re_search re_candidates name) with (is_candidate name).
     destruct (is_candidate name); reflexivity.
 Qed.
@@ -458,8 +467,7 @@ Proof.
   destruct (c_str c) as [s|].
   - destruct (pstr_eqb s (s2p "0.0.0.0")) eqn:E.
     + apply pstr_eqb_spec in E. subst s. repeat split; auto; try congruence.
-    + apply pstr_eqb_neq in E. repeat split; try congruence.
-      intro H. inversion H. contradiction.
+    + apply pstr_eqb_neq in E. repeat split; congruence.
   - repeat split; congruence.
 Qed.
 
@@ -570,8 +578,7 @@ Proof.
           intro H. inversion H as [H1]. destruct (pw_assigned_value_some _ _ H1) as [s [-> Hv]].
           exists s. split; [reflexivity|]. right. left. rewrite (ancestor_parent_n _ _ _ Hg). auto.
         * destruct (is_cls "Index" parent) eqn:EI; simpl.
-          -- destruct parent as [cls pp ff| | | | |]; simpl in ES, EI; try discriminate.
-             apply String.eqb_eq in ES. apply String.eqb_eq in EI. congruence.
+          -- pose proof (is_cls_inj _ _ _ ES EI) as X; discriminate X.
           -- destruct (is_cls "Compare" parent) eqn:EC; [|discriminate].
              intro H. destruct (pw_compare_some _ _ H) as [s [-> Hv]]. exists s. auto 10.
       + destruct (is_cls "Index" parent) eqn:EI; simpl.
@@ -595,21 +602,15 @@ Proof.
       rewrite forallb_forall in Hall. specialize (Hall _ Hin). apply negb_true_iff in Hall. exact Hall.
   - intros cfg c s0 Hs Hsub Hns r Hr.
     destruct (B105 cfg c s0 r Hs Hr) as [s [_ [[HA _]|[[_ Hv]|[[HI _]|[HC _]]]]]].
-    + destruct (parent_of c) as [cls pp ff| | | | |]; simpl in Hsub, HA; try discriminate.
-      apply String.eqb_eq in Hsub. apply String.eqb_eq in HA. congruence.
+    + pose proof (is_cls_inj _ _ _ Hsub HA) as X; discriminate X.
     + rewrite (is_Str_str_of _ Hns) in Hv. discriminate.
-    + destruct (parent_of c) as [cls pp ff| | | | |]; simpl in Hsub, HI; try discriminate.
-      apply String.eqb_eq in Hsub. apply String.eqb_eq in HI. congruence.
-    + destruct (parent_of c) as [cls pp ff| | | | |]; simpl in Hsub, HC; try discriminate.
-      apply String.eqb_eq in Hsub. apply String.eqb_eq in HC. congruence.
+    + pose proof (is_cls_inj _ _ _ Hsub HI) as X; discriminate X.
+    + pose proof (is_cls_inj _ _ _ Hsub HC) as X; discriminate X.
   - intros cfg c s0 Hs Hcmp Hns r Hr.
     destruct (B105 cfg c s0 r Hs Hr) as [s [_ [[HA _]|[[HS _]|[[HI _]|[_ Hv]]]]]].
-    + destruct (parent_of c) as [cls pp ff| | | | |]; simpl in Hcmp, HA; try discriminate.
-      apply String.eqb_eq in Hcmp. apply String.eqb_eq in HA. congruence.
-    + destruct (parent_of c) as [cls pp ff| | | | |]; simpl in Hcmp, HS; try discriminate.
-      apply String.eqb_eq in Hcmp. apply String.eqb_eq in HS. congruence.
-    + destruct (parent_of c) as [cls pp ff| | | | |]; simpl in Hcmp, HI; try discriminate.
-      apply String.eqb_eq in Hcmp. apply String.eqb_eq in HI. congruence.
+    + pose proof (is_cls_inj _ _ _ Hcmp HA) as X; discriminate X.
+    + pose proof (is_cls_inj _ _ _ Hcmp HS) as X; discriminate X.
+    + pose proof (is_cls_inj _ _ _ Hcmp HI) as X; discriminate X.
     + rewrite (is_Str_str_of _ Hns) in Hv. discriminate.
 Qed.
 
